@@ -53,9 +53,18 @@ def bounded(rep, tier, seed):
     st, out, err = run_main(["-n", "1 +"])
     if st != 1 or not err.strip():
         fails.append({"argv": ["-n", "1 +"], "status": st, "stderr": err, "expected_status": 1})
+    # typed --arg bindings, the empty text included
+    for argv, want_out in ((["-n", "-a", "s:string=", "size(s)"], "0"), (["-n", "-a", "s:string=abc", "size(s)"], "3"), (["-n", "-a", "i:int=7", "i + 1"], "8"),
+                           (["-n", "-a", "s:string=", 's == ""'], "true"), (["-n", "-a", "b:bool=true", "b"], "true"), (["-n", "-a", "d:double=1.5", "d * 2.0"], "3.0")):
+        n += 1
+        st, out, err = run_main(argv)
+        if st != 0 or out.strip() != want_out:
+            fails.append({"argv": argv, "status": st, "stdout": out, "expected_stdout": want_out})
     # NDJSON: output k depends on document k only; status = worst
-    docs = ['{"a": 1}', '{"a": 0}', "nope", "null", '{"b": 2}', "[1]"]
-    per = {'{"a": 1}': ("true", 0), '{"a": 0}': ("false", 1), "nope": (None, 3), "null": ("null", 0), '{"b": 2}': ("null", 0), "[1]": ("null", 0)}
+    docs = ['{"a": 1}', '{"a": 0}', "nope", "null", '{"b": 2}', "[1]", '{"a": 1} xyz', '{"a": 1}}', '{"a": 1} {"a": 0}']
+    per = {'{"a": 1}': ("true", 0), '{"a": 0}': ("false", 1), "nope": (None, 3), "null": ("null", 0), '{"b": 2}': ("null", 0), "[1]": ("null", 0),
+           # a line that merely STARTS with a JSON value is not JSON
+           '{"a": 1} xyz': (None, 3), '{"a": 1}}': (None, 3), '{"a": 1} {"a": 0}': (None, 3)}
     lens = (1, 2, 3) if tier == "thorough" else (1, 2)
     for L in lens:
         for stream in itertools.product(docs, repeat=L):
@@ -65,11 +74,11 @@ def bounded(rep, tier, seed):
                 st, out, err = run_main(argv, "".join(d + "\n" for d in stream))
                 want_lines = [per[d][0] for d in stream if per[d][0] is not None]
                 want_status = max((per[d][1] if (b or per[d][1] == 3) else 0) for d in stream)
-                if out.split() != want_lines or st != want_status:
+                if out.strip().splitlines() != want_lines or st != want_status:
                     fails.append({"argv": argv, "stdin": list(stream), "status": st, "stdout": out.split(),
                                   "expected_status": want_status, "expected_stdout": want_lines})
     rep.bounded.append({"function": "celpy.__main__.main end-to-end", "cases": n, "distinct_nontrivial": n,
-                        "bound": f"8 expressions with/without -b, a syntax error, all NDJSON streams of length <= {max(lens)} over 6 documents",
+                        "bound": f"8 expressions with/without -b, a syntax error, all NDJSON streams of length <= {max(lens)} over 9 documents (three of them a valid JSON value followed by more text)",
                         "failures": len(fails)})
     if fails:
         o = rep.add(V.Obl("main#bounded-e2e", "B", "celpy.__main__.main", "bounded stand-in: CLI output and status on concrete runs"))
